@@ -139,7 +139,10 @@ def scenarios(tier):
            _scenario("x", ["send", "close"], "wire-order", known="data-message-leaves-after-eof/close"),
            _scenario("x", ["send", "shutdown_write"], "wire-order", known="data-message-leaves-after-eof/close")]
     if tier == "thorough":
-        out += [_scenario("x", ["send", "close", "window_adjust"], A), _scenario("x", ["send", "send", "close"], A, 2)]
+        # three threads; the two-sender combination (depth 120) is beyond what z3 decides here and is not claimed
+        out += [_scenario("x", ["send", "close", "window_adjust"], A), _scenario("x", ["shutdown_write", "close", "peer_close"], A)]
+        for sc in out[-2:]:
+            sc.timeout_ms = 1500000
     return out
 
 
